@@ -4,7 +4,7 @@ from mc.patterns import pat, P, H, obs_of
 from models import hashes, macs, selfcheck
 
 PROPERTY_ID = "C16"
-RULE = ("the same program set is executed by executors compiled for baseline x86-64 (SSE2), +sse4.1, +avx, +avx2 and target-cpu=native (every extension of the host CPU, here incl. AVX-512), every observation is compared with the reference "
+RULE = ("the same program set is executed by executors compiled for baseline x86-64 (SSE2), without SSE2 (-sse2: the portable engines as the crate itself selects them), +sse4.1, +avx, +avx2 and target-cpu=native, and (own workload only) +sse4.1 / native with overflow checks and debug assertions (every extension of the host CPU, here incl. AVX-512), every observation is compared with the reference "
         "model and the ordered transcripts of all builds must be identical shard by shard. Workload: SHA-224/256 with prefix chunk {0,1,63} bytes then one update of "
         "k blocks (k = 1..=20, +0/+1 trailing bytes) from a buffer at every byte offset 0..=31 (quick: offsets {0,1,4,8,16,31}, k in {1,3,4,5,8,9,12,20}), and two "
         "consecutive multi-block updates; BLAKE2b/s keyed/unkeyed x outlen {1,32,max} x lengths {0,1,B-1,B,B+1,2B,2B+1,5B} x offsets; the complete C03 grid (SSE2 "
@@ -13,15 +13,19 @@ RULE = ("the same program set is executed by executors compiled for baseline x86
         "counts are summed over the builds; distinct = program text")
 ASSUMPTIONS = ["reference models as in C01, C03, C08, C10, C11", "only x86-64 feature sets the host CPU has are built; the aarch64 path is not buildable here"]
 
-BUILDS = ["rel", "sse41", "avx", "avx2", "native"]
+BUILDS = ["rel", "sse41", "avx", "avx2", "native", "nosse2"]
+
+
+# vector feature sets together with checked arithmetic (a vector path that overflows or asserts only there): own shards only
+CHK_BUILDS = ["sse41chk", "nativechk"]
 
 
 def builds_needed(tier):
-    return BUILDS
+    return BUILDS + CHK_BUILDS
 
 
 def bounds(tier):
-    return {"builds": BUILDS + ["portable ChaCha engine (hook) inside each"], "sha256_blocks_per_call": "1..=40 at every offset" if tier == "thorough" else "1,3,4,5,8,9,12,20 at six offsets; every other count of 1..=33 at three offsets",
+    return {"builds": BUILDS + CHK_BUILDS + ["portable ChaCha engine (hook) inside each"], "sha256_blocks_per_call": "1..=40 at every offset" if tier == "thorough" else "1,3,4,5,8,9,12,20 at six offsets; every other count of 1..=33 at three offsets",
             "offsets": "0..=31" if tier == "thorough" else [0, 1, 4, 8, 16, 31]}
 
 
@@ -40,7 +44,7 @@ def ks(tier):
 
 def shards(tier):
     sh = []
-    for b in BUILDS:
+    for b in BUILDS + CHK_BUILDS:
         for v in ("sha256", "sha224"):
             for pre in (0, 1, 63):
                 sh.append(("shard_sha", (b, v, pre)))
@@ -214,7 +218,7 @@ def on_build_failure(fails, total):
     for and the tree under test does not is reported as a violation (the compiler log is the replay artefact), not as a machinery error"""
     import os
     rest = dict(fails)
-    for b in ("sse41", "avx", "avx2", "native"):
+    for b in ("sse41", "avx", "avx2", "native", "nosse2", "sse41chk", "nativechk"):
         if b in rest and "rel" not in fails:
             log = rest.pop(b)
             os.makedirs(core.REPLAY_DIR, exist_ok=True)
